@@ -42,7 +42,52 @@ func mapProtocol(r *Run, prop string, idx int) *core.Report {
 	p7Clear(r, rep, prop, mm)
 	p8Root(r, rep, prop, mm)
 	p10RMW(r, rep, prop, mm)
+	p11Absence(r, rep, prop+".P11", mm)
 	return rep
+}
+
+// p11Absence: the lock-free lookup reports a key absent only after it has followed the chain to its end. A
+// not-found return (constant false in the result that tells presence) must lie on a path whose last link test
+// saw 'next == nil'; any earlier exit (an empty-looking bucket, a free slot, a hash mismatch) loses keys that
+// live further down the chain - slots are freed by deletes and reused, so no occupancy pattern of an earlier
+// bucket implies the end of the chain.
+func p11Absence(r *Run, rep *core.Report, rule string, mm *core.MapModel) {
+	f := mm.Methods["Load"]
+	if f == nil {
+		return
+	}
+	rep.Fn(fn(f))
+	m := &core.Machine[bool]{P: r.P, Fn: f, Spec: core.Spec{}, Inline: helperInline(r)}
+	bad := ""
+	var badIn ssa.Instruction
+	nAbs := 0
+	m.Step = func(ctx *core.Ctx[bool], s bool, in ssa.Instruction) []bool {
+		ret, ok := in.(*ssa.Return)
+		if !ok || ctx.Frame != nil {
+			return []bool{s}
+		}
+		for _, res := range ret.Results {
+			if b, isC := core.ConstBool(res); isC && !b {
+				nAbs++
+				if !s && bad == "" {
+					bad = "the lookup reports the key absent on a path that has not reached the end of the bucket chain (next == nil): a key stored further down the chain is reported missing"
+					badIn = in
+				}
+			}
+		}
+		return []bool{s}
+	}
+	m.Edge = chainEndEdge(r)
+	m.Run()
+	pos := r.P.Pos(f.Pos())
+	if badIn != nil {
+		pos = r.P.InstrPos(badIn)
+	}
+	if nAbs == 0 {
+		rep.Undecided(rule, fn(f)+" absence only at the chain end", pos, "no return with a constant 'not found' result was found in the lookup")
+		return
+	}
+	rep.Check(bad == "", rule, fn(f)+" absence only at the chain end", pos, "every not-found return follows a 'next == nil' test of the chain walk", bad)
 }
 
 // ---- P1: reader snapshot (pointer-pair layout) ----
